@@ -284,6 +284,9 @@ func (s *Stream) startConsume(consumer Consumer, packetType PacketType, extra st
 	cs.Add(c)
 
 	go c.consume()
+	if atomic.LoadInt32(&s.status) != StreamOK { // 加入期间流已关闭，关闭清扫可能已错过该消费者
+		s.StopConsume(c.cid)
+	}
 	return c.cid
 }
 
